@@ -71,6 +71,11 @@ def warmup() -> None:
 
 
 def execute(doc: dict) -> dict:
+    return core.confirm_on_legal_history(doc, _execute_full(doc),
+                                         _execute_full, ("scribble_scratch",))
+
+
+def _execute_full(doc: dict) -> dict:
     """Optionally followed by a twin: another instance with the SAME name,
     its own encoder and destinations (nothing keyed by the name may leak)."""
     name = packgen.scenario_name(doc)
